@@ -58,7 +58,6 @@ Proof. intros. unfold memo3. rewrite memo1_eq. now rewrite memo2_eq. Qed.
 
 (* ------------------------------------------------------------------ sums *)
 
-Fixpoint zsum (l : list Z) : Z := match l with [] => 0 | x :: r => x + zsum r end.
 
 Lemma osum_if : forall {X} (f : X -> option Z) (p : X -> bool) (g : X -> Z) l,
   (forall x, In x l -> f x = if p x then Some (g x) else None) ->
